@@ -130,6 +130,65 @@ theorem kw_osb : rawC (b "[") = true := by decide +kernel
 theorem kw_csb : rawC (b "]") = true := by decide +kernel
 theorem kw_tsLabels : rawE (b tsLabelsText) = true := by decide +kernel
 
+theorem PE_of_mem_map' {α} {f : α → List Seg} {l : List α} (h : ∀ a ∈ l, PE (f a)) : ∀ x ∈ l.map f, PE x := by
+  intro x hx
+  rcases List.mem_map.mp hx with ⟨a, ha, rfl⟩
+  exact h a ha
+
+theorem kw_labelsFp : rawE (b labelsFpText) = true := by decide +kernel
+theorem kw_jsonMapOpen : rawC (b "mapFromArrays([") = true := by decide +kernel
+theorem kw_jsonMapMid : rawC (b "], [") = true := by decide +kernel
+theorem kw_jsonMapClose : rawC (b "])") = true := by decide +kernel
+theorem kw_jsonGet1 : rawC (b "if(JSONType(string, ") = true := by decide +kernel
+theorem kw_jsonGet2 : rawC (b ") == 'String', JSONExtractString(string, ") = true := by decide +kernel
+theorem kw_jsonGet3 : rawC (b "), JSONExtractRaw(string, ") = true := by decide +kernel
+theorem kw_jsonGet4 : rawC (b "))") = true := by decide +kernel
+theorem kw_regexOpen : rawC (b "mapFromArrays(arrayFilter( (x,y) -> x != '' AND y != '',  [") = true := by decide +kernel
+theorem kw_dropOpen : rawC (b "mapFilter((k,v) -> ") = true := by decide +kernel
+theorem kw_dropAnd : rawC (b " and ") = true := by decide +kernel
+theorem kw_dropKey : rawC (b "k!=") = true := by decide +kernel
+theorem kw_dropPair : rawC (b "(k, v)!=(") = true := by decide +kernel
+
+theorem PE_jargSegs (a : JArg) (h : (match a with | .key _ => true | .idx i => rawE (intText i)) = true) : PE (jargSegs a) := by
+  cases a with
+  | key k => exact PE_str k
+  | idx i => exact PE_raw h
+
+theorem PE_jsonGetSegs (path : List JArg)
+    (h : path.all (fun a => match a with | .key _ => true | .idx i => rawE (intText i)) = true) : PE (jsonGetSegs path) := by
+  have hp : PE (joinS (b ",") (path.map jargSegs)) :=
+    PE_joinS (PC_raw kw_comma) _ (PE_of_mem_map' (fun a ha => PE_jargSegs a (List.all_eq_true.mp h a ha)))
+  have h1 := PC.wrap (PC_raw kw_jsonGet1) hp (PC_raw kw_jsonGet2)
+  have h2 := PC.wrap h1 hp (PC_raw kw_jsonGet3)
+  have h3 := PC.wrap h2 hp (PC_raw kw_jsonGet4)
+  simpa [jsonGetSegs, List.append_assoc] using h3.toPE
+
+theorem PE_jsonMapSegs (ps : List (Bytes × List JArg))
+    (h : ps.all (fun p => p.2.all (fun a => match a with | .key _ => true | .idx i => rawE (intText i))) = true) :
+    PE (jsonMapSegs ps) := by
+  have hk : PE (joinS (b ",") (ps.map (fun p => [Seg.str p.1]))) :=
+    PE_joinS (PC_raw kw_comma) _ (PE_of_mem_map' (fun p _ => PE_str p.1))
+  have hv : PE (joinS (b ",") (ps.map (fun p => jsonGetSegs p.2))) :=
+    PE_joinS (PC_raw kw_comma) _ (PE_of_mem_map' (fun p hp => PE_jsonGetSegs p.2 (List.all_eq_true.mp h p hp)))
+  have h1 := PC.wrap (PC_raw kw_jsonMapOpen) hk (PC_raw kw_jsonMapMid)
+  have h2 := PC.wrap h1 hv (PC_raw kw_jsonMapClose)
+  simpa [jsonMapSegs, List.append_assoc] using h2.toPE
+
+theorem PE_regexMapSegs (labels : List Bytes) (re : Bytes) (id : Nat) (h1 : rawC (regexMid id) = true)
+    (h2 : rawC (regexPost id) = true) : PE (regexMapSegs labels re id) := by
+  have hl : PE (joinS (b ",") (labels.map (fun l => [Seg.str l]))) :=
+    PE_joinS (PC_raw kw_comma) _ (PE_of_mem_map' (fun l _ => PE_str l))
+  have a := PC.wrap (PC_raw kw_regexOpen) hl (PC_raw h1)
+  have c := PC.wrap a (PE_str re) (PC_raw h2)
+  simpa [regexMapSegs, List.append_assoc] using c.toPE
+
+theorem PE_dropClauseSegs (p : Bytes × Bytes) : PE (dropClauseSegs p) := by
+  by_cases h : p.2.isEmpty
+  · simpa [dropClauseSegs, h] using (PC.appendPE (PC_raw kw_dropKey) (PE_str p.1)).toPE
+  · have a := PC.wrap (PC_raw kw_dropPair) (PE_str p.1) (PC_raw kw_commaSp)
+    have c := PC.wrap a (PE_str p.2) (PC_raw kw_close)
+    simpa [dropClauseSegs, h] using c.toPE
+
 theorem PE_of_mem_map {α} {f : α → List Seg} {l : List α} (h : ∀ a ∈ l, PE (f a)) : ∀ x ∈ l.map f, PE x := by
   intro x hx
   rcases List.mem_map.mp hx with ⟨a, ha, rfl⟩
@@ -241,6 +300,20 @@ theorem closedExpr : ∀ e : Expr, wfExpr e = true → PE (segsExpr e)
     have := PE.appendPC (PE.sep (closedExpr src h.1) (PC_raw kw_arrayJoin) (closedExpr arr h.2)) (PC_raw kw_space)
     simpa [segsExpr, List.append_assoc] using this
   | .fixedLit units scale, h => by simpa [segsExpr] using PE_raw (by simpa [wfExpr] using h)
+  | .jsonMap ps, h => by
+    simp only [wfExpr] at h
+    simpa [segsExpr] using PE_jsonMapSegs ps h
+  | .regexMap labels re id, h => by
+    simp only [wfExpr, Bool.and_eq_true] at h
+    simpa [segsExpr] using PE_regexMapSegs labels re id h.1 h.2
+  | .mapDrop m ps, h => by
+    simp only [wfExpr] at h
+    have hc : PE (joinS (b " and ") (ps.map dropClauseSegs)) :=
+      PE_joinS (PC_raw kw_dropAnd) _ (PE_of_mem_map' (fun p _ => PE_dropClauseSegs p))
+    have h1 := PC.wrap (PC_raw kw_dropOpen) hc (PC_raw kw_commaSp)
+    have h2 := PC.wrap h1 (closedExpr m h) (PC_raw kw_close)
+    simpa [segsExpr, List.append_assoc] using h2.toPE
+  | .labelsFp, _ => by simpa [segsExpr] using PE_raw kw_labelsFp
 theorem closedSels : ∀ ss : List Sel, wfSels ss = true → ∀ x ∈ segsSels ss, PE x
   | [], _ => by simp [segsSels]
   | s :: ss, h => by
